@@ -20,6 +20,7 @@ User payloads `U` are the canonical value tokens (strings), passed through.
   birth cmd <n|hexdev> <a<alias>|n<hexname>>
 -/
 import SradModel.Model.Birth
+import SradModel.Model.SipHash
 import SradModel.Drv.Util
 
 namespace Srad.BirthDrv
@@ -62,7 +63,9 @@ structure BWorld where
   node : BObj := {}
   devs : List (Name × BObj) := []
 
-def BWorld.h (w : BWorld) (n : Name) : Nat := (w.hash.lookup n).getD 0
+/-- the hash of a name: what the harness reported (checked against the model when it was reported), else the
+SipHash model itself -/
+def BWorld.h (w : BWorld) (n : Name) : Nat := (w.hash.lookup n).getD (Srad.Sip.hashNat n)
 
 /-! ### parsing -/
 
@@ -296,7 +299,10 @@ def stepBirth (w : BWorld) : List String → BWorld × String
     | none => (w, "bad-op")
   | ["hash", nm, v] =>
     match unhex nm, v.toNat? with
-    | some nm, some v => ({ w with hash := (nm, v) :: w.hash }, "ok")
+    | some nm, some v =>
+      -- M17: the reported `DefaultHasher` value is CHECKED against the SipHash-1-3 model, not believed
+      let hv := Srad.Sip.hashNat nm
+      ({ w with hash := (nm, v) :: w.hash }, if hv = v then "ok" else s!"hash-mismatch {hv}")
     | _, _ => (w, "bad-op")
   | ["tpl", slot, nm] =>
     match slot.toNat?, unhex nm with
